@@ -1,9 +1,17 @@
 package pure
 
 import (
+	"os"
 	"testing"
 
 	"verif/ev"
 )
 
 func TestMain(m *testing.M) { ev.Main(m) }
+
+func envOr(k, def string) string {
+	if v := os.Getenv(k); v != "" {
+		return v
+	}
+	return def
+}
